@@ -7,12 +7,12 @@
    front ends, each with its own repository_path argument, returning or raising) on the file-system
    model; [get root k d] is the matching get_* function ([None] = RuntimeError); [writes_call c] are
    the (root, key, value) leaves a call was given, [commit_call c] those stored when it returns or
-   raises; [spec root cs] is the abstract map "last write wins".  [history_ok root cs]: transition
-   levels contain no '>' character, and every call addresses [root] itself or a root that cannot
+   raises; [spec root cs] is the abstract map "last write wins".  [history_ok root cs]: the UPPER level of a
+   transition contains no '>' character (the lower level is unrestricted), and every call addresses [root] itself or a root that cannot
    share a file with it. *)
 From Coq Require Import ZArith List Bool String.
-Require Import Cherab.Model.C06_Repo Cherab.Model.C06_Spec.
-Require Import Cherab.Proofs.C06_Keys Cherab.Proofs.C06_Refine Cherab.Proofs.C06_Props Cherab.Proofs.C06_Extra.
+Require Import Cherab.Model.C06_Repo Cherab.Model.C06_Spec Cherab.Model.C06_Check.
+Require Import Cherab.Proofs.C06_Keys Cherab.Proofs.C06_Refine Cherab.Proofs.C06_Props Cherab.Proofs.C06_Extra Cherab.Proofs.C06_More.
 Import ListNotations.
 Open Scope Z_scope.
 
@@ -88,6 +88,14 @@ Theorem C06_flatten_injective :
 Proof. exact flatten_injective. Qed.
 Print Assumptions C06_flatten_injective.
 
+(* with it: two keys of the model whose files differ have different file NAMES on disk, for any root and any
+   slash-free symbols (the numbers rendered by '{}'.format never contain a slash - proved, not assumed) *)
+Theorem C06_file_names_injective :
+  forall root k k', forallb comp_ok root = true -> key_comp_ok k = true -> key_comp_ok k' = true ->
+  flatten (root ++ kpath k) = flatten (root ++ kpath k') -> kpath k = kpath k'.
+Proof. exact file_names_injective. Qed.
+Print Assumptions C06_file_names_injective.
+
 (* each add_* performs the steps of its own family's update_* on the singleton dictionary.  This holds
    by construction of the model; that the source does the same is what the correspondence checks
    (it is the statement that was false for add_continuum_power_rate / add_cx_power_rate, finding F1). *)
@@ -114,6 +122,32 @@ Theorem C06_refuted_unfixed :
     get root (KAdf11 FLine (lsym s) q) d = Some (t_val t1) /\ t_val t1 <> t_val t0.
 Proof. exact refuted_unfixed. Qed.
 Print Assumptions C06_refuted_unfixed.
+
+(* a call returns normally exactly when every check the code makes passes: the charge / metastable
+   checks of every file visit and the shape checks of every leaf (decided by the model from the array
+   shapes, Model/C06_Repo.v:t_ok); with C06_last_write_wins: valid data is never rejected and is stored *)
+Theorem C06_valid_calls_return :
+  forall root c d, call_ok c = true -> root_ok root c ->
+  (snd (run_call c d) = Done <-> call_valid c = true).
+Proof. exact valid_calls_return. Qed.
+Print Assumptions C06_valid_calls_return.
+
+(* what a zero of the correspondence comparator (Model/C06_Check.v) certifies: at every call the
+   implementation's outcome and its read of every key are the model's, and the files on disk are the
+   model's files after the history *)
+Theorem C06_check_seq_sound :
+  forall cs queries impl impl_files, check_seq cs queries impl impl_files = 0 ->
+  impl = model_steps (map qloc queries) cs [] /\
+  (forall p, In p (files (run cs [])) -> In p impl_files) /\ (forall p, In p impl_files -> In p (files (run cs []))).
+Proof. exact check_seq_sound. Qed.
+Print Assumptions C06_check_seq_sound.
+
+(* the remaining hypothesis of the key encoding ([key_ok]: no '>' in the UPPER level of a transition;
+   the lower level is unrestricted) cannot be dropped: these two transitions share one sub-key *)
+Theorem C06_arrow_alias_witness :
+  exists t t' : ntrans, t <> t' /\ join_trans t = join_trans t' /\ ntrans_ok t = false.
+Proof. exact arrow_alias_witness. Qed.
+Print Assumptions C06_arrow_alias_witness.
 
 (* non-vacuity: a history over two repositories with an alias transition, a rejected update in the
    middle and an install front end meets the hypotheses, and reads what the theorems say *)
